@@ -75,6 +75,8 @@ DEFAULT_PROFILE = {
     'allow_polling_app_disconnect': 0.1,   # K1: keep rare
     'span': 6.0,
     'p_stop_polling': 0.05,
+    'p_raw_bodies': 0.0,
+    'raw_bad': 0.15,
 }
 
 
@@ -182,6 +184,18 @@ def gen_server_plan(rng, prof=None):
             msgs.append({'t': t, 'data': [cpay.next() for _ in range(
                 rng.choice([1, 1, 1, 2, 4]))]})
         s['msgs'] = sorted(msgs, key=lambda m: m['t'])
+        if rng.random() < p['p_raw_bodies']:
+            posts, frames = [], []
+            for _ in range(rng.randint(1, 4)):
+                t = _near(rng, span, t_up)
+                if s['open'] == 'websocket' or (t_up is not None and
+                                                rng.random() < 0.5):
+                    for fr in raw_frames(rng, cpay, p):
+                        frames.append({'t': t, 'data': fr})
+                else:
+                    posts.append({'t': t, 'body': raw_body(rng, cpay, p)})
+            s['posts'] = sorted(posts, key=lambda x: x['t'])
+            s['frames'] = sorted(frames, key=lambda x: x['t'])
         # end of the session
         t_end = None
         if rng.random() < p['p_end']:
@@ -232,3 +246,53 @@ def _near(rng, span, t_up, lo=0.0):
         t = t_up + rng.randint(-6, 24) * TICK
         return max(lo, t)
     return ticks(rng, lo, span)
+
+
+def raw_packets(rng, cpay, p, n=None):
+    """A list of wire-form packets (text channel) mixing every type digit."""
+    n = n or rng.choice([1, 1, 2, 3, 5, 8])
+    out = []
+    for _ in range(n):
+        r = rng.random()
+        if r < 0.55:
+            spec = cpay.next()
+            if spec['k'] == 's':
+                out.append(('t', '4' + spec['v']))
+            elif spec['k'] == 'j':
+                import json as _j
+                out.append(('t', '4' + _j.dumps(spec['v'],
+                                                separators=(',', ':'))))
+            else:
+                out.append(('b', spec['v']))
+        elif r < 0.65:
+            out.append(('t', rng.choice(['3', '3probe', '6', '5'])))
+        elif r < 0.75:
+            out.append(('t', '1'))
+        elif r < 0.75 + p['raw_bad']:
+            out.append(('t', rng.choice(['0', '2', '2probe', '7', '8x', '9',
+                                         '0{"sid":"x"}'])))
+        else:
+            out.append(('t', rng.choice(['x', 'b!', '4', '41', '4null',
+                                         '4"s"', '4[1,2]', '4 1'])))
+    return out
+
+
+def raw_body(rng, cpay, p):
+    import base64 as _b
+    parts = []
+    for kind, v in raw_packets(rng, cpay, p):
+        if kind == 'b':
+            parts.append('b' + _b.b64encode(bytes.fromhex(v)).decode())
+        else:
+            parts.append(v)
+    return '\x1e'.join(parts)
+
+
+def raw_frames(rng, cpay, p):
+    out = []
+    for kind, v in raw_packets(rng, cpay, p, rng.choice([1, 2, 3])):
+        if kind == 'b':
+            out.append({'hex': v})
+        else:
+            out.append(v)
+    return out
